@@ -7,5 +7,5 @@ INVARIANTS
   TypeOK C01 C01Internal C04 C04Error C05Contained C05Exit C05KeepGoing C05FailExit
   C06NoBug C06Error C06Cycle C06NoValWait C18 C19 Bookkeeping
 PROPERTIES
-  C01NoRestart C05Budget C19Monotone C06Terminates
+  LegalTransitions C01NoRestart C05Budget C19Monotone C06Terminates
 CHECK_DEADLOCK FALSE
